@@ -753,6 +753,19 @@ func c16E2E(id int, transportName, kind string, big bool, enc *json.Encoder, mu 
 				}
 			}
 
+			// the same driver object once more: a second connection through the same transport object
+			_ = d.Close()
+
+			if err = d.Open(); err != nil {
+				same, detail = false, "second session: open: "+err.Error()
+
+				return
+			}
+
+			if r, cerr := d.SendCommand("show z8"); cerr != nil || r.Result != cmds["show z8"] {
+				same, detail = false, fmt.Sprintf("second session: show z8: err %v", cerr)
+			}
+
 			return
 		}
 
@@ -789,6 +802,20 @@ func c16E2E(id int, transportName, kind string, big bool, enc *json.Encoder, mu 
 
 				return
 			}
+		}
+
+		// the same driver object once more: a second connection (for the system transport: a second ssh child) through the
+		// same transport object
+		_ = d.Close()
+
+		if err = d.Open(); err != nil {
+			same, detail = false, "second session: open: "+err.Error()
+
+			return
+		}
+
+		if r, gerr := d.Get(""); gerr != nil || r.Failed != nil || !strings.Contains(r.Result, "<v>") {
+			same, detail = false, fmt.Sprintf("second session: get: err %v", gerr)
 		}
 	})
 
